@@ -69,7 +69,7 @@ def coq_case(case):
 
 def run(ctx, model_ok):
     r = vlib.rng(ctx.seed, "C01/dfc")
-    n = 200 if ctx.quick else 4000
+    n = 200 if ctx.quick else 3000
     cases = [json.loads(f.read_text()) for f in sorted((ctx.dir / "corpus").glob("dfc_*.json"))]
     cases += [gen_case(r) for _ in range(n)]
     cov = {"scripts": len(cases), "disagreements": 0, "invariant_violations_on_real_container": 0}
